@@ -93,12 +93,74 @@ var nilErr = Iface{}
 
 func (p *Path) stubByName(name string, fn *ssa.Function, args []Value) (Value, bool) {
 	switch name {
+	case "(*strings.Builder).WriteString", "(*strings.Builder).Write":
+		s := strArg(args[1])
+		p.bufAppend(p.bufPtr(args[0]), s)
+		return Tuple{mkLen(s), nilErr}, true
+	case "(*strings.Builder).WriteByte", "(*bytes.Buffer).WriteByte":
+		b, ok := args[1].(*Term)
+		if !ok || !b.IsConst() {
+			p.unsupported("WriteByte of a symbolic byte")
+		}
+		p.bufAppend(p.bufPtr(args[0]), mkStr(string([]byte{byte(b.Int64())})))
+		return nilErr, true
+	case "(*strings.Builder).WriteRune", "(*bytes.Buffer).WriteRune":
+		r, ok := args[1].(*Term)
+		if !ok || !r.IsConst() {
+			p.unsupported("WriteRune of a symbolic rune")
+		}
+		st := string(rune(r.Int64()))
+		p.bufAppend(p.bufPtr(args[0]), mkStr(st))
+		return Tuple{mkInt(int64(len(st))), nilErr}, true
+	case "(*strings.Builder).String":
+		return p.bufGet(p.bufPtr(args[0])), true
+	case "(*strings.Builder).Len":
+		return mkLen(p.bufGet(p.bufPtr(args[0]))), true
+	case "(*strings.Builder).Reset":
+		p.bufs[p.bufPtr(args[0])] = mkStr("")
+		return nil, true
+	case "(*strings.Builder).Grow", "(*bytes.Buffer).Grow":
+		return nil, true
+	case "bytes.NewBufferString":
+		c := new(Value)
+		*c = zero(fn.Signature.Results().At(0).Type().(*types.Pointer).Elem())
+		p.bufs[c] = strArg(args[0])
+		return Ptr{c}, true
+	case "strings.TrimSuffix":
+		s, suf := args[0].(*Term), args[1].(*Term)
+		if s.IsConst() && suf.IsConst() {
+			return mkStr(strings.TrimSuffix(s.S, suf.S)), true
+		}
+		if p.branch(mkSuffixOf(suf, s), "trimsuffix") {
+			return p.substr(s, mkInt(0), mkSub(mkLen(s), mkLen(suf))), true
+		}
+		return s, true
+	case "strings.TrimPrefix":
+		s, pre := args[0].(*Term), args[1].(*Term)
+		if s.IsConst() && pre.IsConst() {
+			return mkStr(strings.TrimPrefix(s.S, pre.S)), true
+		}
+		if p.branch(mkPrefixOf(pre, s), "trimprefix") {
+			return p.substr(s, mkLen(pre), mkSub(mkLen(s), mkLen(pre))), true
+		}
+		return s, true
+	case "strings.Join":
+		sl, ok := args[0].(Slice)
+		if !ok {
+			return mkStr(""), true
+		}
+		var parts []*Term
+		for i, x := range sl.data {
+			if i > 0 {
+				parts = append(parts, args[1].(*Term))
+			}
+			parts = append(parts, x.(*Term))
+		}
+		return mkConcat(parts...), true
 	case "(*bytes.Buffer).Write", "(*bytes.Buffer).WriteString":
 		s := strArg(args[1])
 		p.bufAppend(p.bufPtr(args[0]), s)
 		return Tuple{mkLen(s), nilErr}, true
-	case "(*bytes.Buffer).WriteByte":
-		p.unsupported("bytes.Buffer.WriteByte")
 	case "(*bytes.Buffer).String":
 		if isNilPtr(args[0]) {
 			return mkStr("<nil>"), true
